@@ -1,6 +1,7 @@
 /-
   C14 — Rolling and expanding windows select exactly the points inside each window.
 -/
+import VerdeModel.Gen.Windows
 import VerdeModel.Model.Windows
 import VerdeModel.Lemmas.Coords
 import VerdeModel.Lemmas.MinMax
@@ -231,5 +232,47 @@ theorem src_rolling_centres (es ns : List Rat) (size : Rat) (region : Option (Ra
     simp only [hr, Except.map, Except.ok.injEq, Prod.mk.injEq] at h
     obtain ⟨w, e, s, n, h1, h2, h3, _, _⟩ := rolling_structure es ns size _ o hr
     exact ⟨w, e, s, n, h1, h2, by rw [h3, h.1, h.2]⟩
+
+/-! ## `expanding_window` and the queries of `rolling_window` as regenerated from the source (Gen/Windows.lean) -/
+
+/-- **Bridge.**  `expanding_window` as regenerated from the source. -/
+theorem gen_expanding_window_eq_model (es ns : List Rat) (cx cy : Rat) (sizes : List Rat) :
+    Gen.expandingWindow es ns (cx, cy) sizes = expandingWindow es ns cx cy sizes := rfl
+
+theorem rollingIndices_eq (es ns east north : List Rat) (size : Rat) :
+    Gen.rollingIndices es ns east north size = north.flatMap fun cy => east.map fun cx => windowIdx es ns cx cy (size / 2) := by
+  unfold Gen.rollingIndices
+  simp only [List.map_flatMap, List.map_map, Function.comp_def]
+
+/-- **Bridge.**  The query part of `rolling_window` as regenerated from the source gives, for the centre lines the model computes, the model's
+    windows: one index set per centre, row-major, each the closed square of half the size. -/
+theorem gen_rolling_indices_eq_model (es ns : List Rat) (size : Rat) (b : BlockSpec) (o : RollOut)
+    (h : rollingWindow es ns size b = .ok o) :
+    Gen.rollingIndices es ns o.east o.north size = o.windows := by
+  unfold rollingWindow at h
+  simp only [bind, Except.bind, pure, Except.pure] at h
+  repeat' split at h
+  all_goals first
+    | (cases h; exact rollingIndices_eq _ _ _ _ _)
+    | cases h
+
+/-- **Membership, about the source as it is now:** the `k`-th index set `expanding_window` returns holds exactly the points whose easting and
+    northing both lie within half of `sizes[k]` of the centre (closed square), in the order of the given sizes. -/
+theorem src_expanding_window_membership (es ns : List Rat) (cx cy : Rat) (sizes : List Rat) (k : Nat) (hk : k < sizes.length) (i : Nat) :
+    ∃ w, (Gen.expandingWindow es ns (cx, cy) sizes)[k]? = some w ∧
+      (i ∈ w ↔ i < es.length ∧ |es.getD i 0 - cx| ≤ sizes[k] / 2 ∧ |ns.getD i 0 - cy| ≤ sizes[k] / 2) := by
+  refine ⟨windowIdx es ns cx cy (sizes[k] / 2), ?_, window_membership_iff _ _ _ _ _ _⟩
+  rw [gen_expanding_window_eq_model]
+  exact expanding_order es ns cx cy sizes k hk
+
+/-- **Membership, about the source as it is now:** every index set the query part of `rolling_window` returns is the closed square of half the
+    window size around its own centre. -/
+theorem src_rolling_indices_membership (es ns east north : List Rat) (size : Rat) (w : List Nat)
+    (hw : w ∈ Gen.rollingIndices es ns east north size) :
+    ∃ cx ∈ east, ∃ cy ∈ north, ∀ i, i ∈ w ↔ i < es.length ∧ |es.getD i 0 - cx| ≤ size / 2 ∧ |ns.getD i 0 - cy| ≤ size / 2 := by
+  rw [rollingIndices_eq] at hw
+  obtain ⟨cy, hcy, hw⟩ := List.mem_flatMap.mp hw
+  obtain ⟨cx, hcx, rfl⟩ := List.mem_map.mp hw
+  exact ⟨cx, hcx, cy, hcy, fun i => window_membership_iff _ _ _ _ _ _⟩
 
 end Verde.C14
